@@ -28,15 +28,21 @@ def dgram_id(s):
     return int(s[:4], 16) if len(s) >= 4 else None
 
 
+PREMATURE = 'numbering:premature-ack'
+
+
 def monitor(case, out, numbering):
-    """returns (violation or None, stats); violation = (key, why, event index)"""
+    """returns (violation or None, stats, notes); violation / note = (key, why, event index).  Notes are
+    occurrences of the one known deviation (see known_findings.json): an ack that names the current,
+    not yet emitted fragment is counted, so the emitted numbers skip one."""
     st = dict(events=0, data_answers=0, attributed=0, max_fill=0.0, at_bound=0, n_small=0, n_acc=0, badfrag=0,
               packets_tiled=0, frags_tracked=0, reemissions=0, wraps=0, abandoned=0, dataless=0)
     cfg, evs = srvmon.history_events(case)
     domain = bytes.fromhex(cfg[0])
     res = srvmon.split_events(out)
     if len(res) != len(evs) or any(r.bad for r in res):
-        return ('output', 'implementation output does not parse (%d events, %d results)' % (len(evs), len(res)), 0), st
+        return ('output', 'implementation output does not parse (%d events, %d results)' % (len(evs), len(res)), 0), st, []
+    notes = []
     ids = {}
     known = set()
     prev = {}
@@ -62,6 +68,14 @@ def monitor(case, out, numbering):
             st['abandoned'] += 1
         return None
 
+    def premature(slot, seq):
+        """this event's query acknowledges (seq, current fragment) of session slot although nothing of that
+        fragment had been sent (sentlen 0 before the event)"""
+        if q is None or q.kind not in ('ping', 'data') or q.uid != slot or q.ack is None or slot not in prev:
+            return False
+        ln0, off0, sent0, seq0, frag0 = prev[slot].outpkt()
+        return ln0 > 0 and sent0 == 0 and seq0 == seq and q.ack == (seq0, frag0)
+
     for k, (ev, r) in enumerate(zip(evs, res)):
         st['events'] += 1
         t = ev.split()
@@ -83,7 +97,7 @@ def monitor(case, out, numbering):
         # ---- reject ----
         for slot, u in r.users.items():
             if u.fragsize() < 2:
-                return ('fragsize-below-2', 'session %d shows fragment size %d' % (slot, u.fragsize()), k), st
+                return ('fragsize-below-2', 'session %d shows fragment size %d' % (slot, u.fragsize()), k), st, notes
         if q is not None and q.kind == 'N' and q.fs is not None:
             ans = [srvmon.dec_bytes(s.dec) for s in r.sends if s.rv is not None]
             acked = any(b is not None and ln == 2 and b == bytes([q.fs >> 8, q.fs & 255]) for ln, b, f in ans)
@@ -98,7 +112,7 @@ def monitor(case, out, numbering):
             elif acked and q.uid in r.users:
                 st['n_acc'] += 1
                 if r.users[q.uid].fragsize() != q.fs:
-                    return ('N-not-applied', 'N %d acknowledged but the session shows %d' % (q.fs, r.users[q.uid].fragsize()), k), st
+                    return ('N-not-applied', 'N %d acknowledged but the session shows %d' % (q.fs, r.users[q.uid].fragsize()), k), st, notes
         # ---- bound, numbering ----
         seen_data = set()
         for s in r.sends:
@@ -109,7 +123,7 @@ def monitor(case, out, numbering):
                 continue
             st['data_answers'] += 1
             if ln - 2 > 4094:
-                return ('bound-4094', 'a data answer carries %d bytes after the header' % (ln - 2), k), st
+                return ('bound-4094', 'a data answer carries %d bytes after the header' % (ln - 2), k), st, notes
             qid = dgram_id(s.dgram)
             cands = ids.get(qid, [])
             qi = cands[-1] if cands else None
@@ -123,7 +137,7 @@ def monitor(case, out, numbering):
             F = u0.fragsize()
             if ln - 2 > F:
                 return ('bound', 'answer to %s query id %d of session %d carries %d bytes of tunnel data after the 2-byte header; '
-                        'the session\'s fragment size is %d' % (qi.kind, qid, slot, ln - 2, F), k), st
+                        'the session\'s fragment size is %d' % (qi.kind, qid, slot, ln - 2, F), k), st, notes
             if F > 0:
                 st['max_fill'] = max(st['max_fill'], (ln - 2) / min(F, 4094))
                 if ln - 2 == min(F, 4094):
@@ -148,24 +162,33 @@ def monitor(case, out, numbering):
             if fl is not None and fl['seq'] != seq:
                 v = finalize(slot, k)
                 if v:
-                    return v, st
+                    return v, st, notes
                 fl = None
+            if premature(slot, seq):
+                # known deviation: the ack of this very query named the fragment that had not been sent yet
+                notes.append((PREMATURE, 'session %d: an ack for fragment %d of sequence number %d arrived before that fragment was '
+                              'ever sent; the server counted it and the fragment went out with number %d' % (
+                                  slot, (frag - 1) % 16, seq, frag), k))
+                st['premature_acks'] = st.get('premature_acks', 0) + 1
+                flights.pop(slot, None)
+                skipseq[slot] = seq
+                continue
             if fl is None:
                 if frag != 0:
                     return ('numbering-start', 'session %d: the first fragment seen of sequence number %d is numbered %d' % (
-                        slot, seq, frag), k), st
+                        slot, seq, frag), k), st, notes
                 flights[slot] = dict(seq=seq, frag=0, n=0, pieces=[], cur=payload, last=last, F=F)
                 st['frags_tracked'] += 1
             elif frag == fl['frag']:
                 st['reemissions'] += 1
                 if fl['F'] == F and payload != fl['cur']:
                     return ('reemission', 'session %d: fragment %d of sequence number %d was re-emitted with different bytes '
-                            'although the fragment size did not change' % (slot, frag, seq), k), st
+                            'although the fragment size did not change' % (slot, frag, seq), k), st, notes
                 fl['cur'], fl['last'], fl['F'] = payload, last, F
             elif frag == (fl['frag'] + 1) % 16:
                 if fl['last']:
                     return ('last-flag', 'session %d: fragment %d of sequence number %d follows a fragment that carried the '
-                            'last-fragment flag' % (slot, frag, seq), k), st
+                            'last-fragment flag' % (slot, frag, seq), k), st, notes
                 fl['pieces'].append(fl['cur'])
                 fl['n'] += 1
                 if fl['n'] >= 16:
@@ -174,7 +197,7 @@ def monitor(case, out, numbering):
                 st['frags_tracked'] += 1
             else:
                 return ('numbering', 'session %d: fragment %d of sequence number %d follows fragment %d' % (
-                    slot, frag, seq, fl['frag']), k), st
+                    slot, frag, seq, fl['frag']), k), st, notes
         if numbering:
             # an emission the client decoder could not read (answer too large for the record type): the
             # monitor did not see that fragment; stop following this sequence number
@@ -192,8 +215,8 @@ def monitor(case, out, numbering):
         for slot in list(flights):
             v = finalize(slot, len(evs) - 1)
             if v:
-                return v, st
-    return None, st
+                return v, st, notes
+    return None, st, notes
 
 
 def add(tot, st):
@@ -221,14 +244,20 @@ def check(rep):
                        'state-neutral; numbering/tiling on the targeted ones with full payload bytes); model/implementation '
                        'diff per history on corpus + targeted + a prefix of the random ones, first differing event reported')
     tot = {}
-    viol = None
+    viols = {}
+
+    def record(v, c, o):
+        if v and v[0] not in viols:
+            viols[v[0]] = (v, c, o)
+
     impl_f, mod_f = srvmon.run_both(ctx, full_cases, 'full', full=True)
     if impl_f is not None:
         for c, o in zip(full_cases, impl_f):
-            v, st = monitor(c, o, numbering=True)
+            v, st, notes = monitor(c, o, numbering=True)
             add(tot, st)
-            if v and not viol:
-                viol = (v, c, o)
+            record(v, c, o)
+            for nt_ in notes:
+                record(nt_, c, o)
     impl_r, mod_r = srvmon.run_both(ctx, randoms[:nm], 'rnd', full=False)
     impl_r2 = None
     if 'srv' in ctx.exe and len(randoms) > nm:
@@ -238,12 +267,11 @@ def check(rep):
         ctx.model = old
     if impl_r is not None:
         for c, o in zip(randoms, impl_r + (impl_r2 or [])):
-            v, st = monitor(c, o, numbering=False)
+            v, st, notes = monitor(c, o, numbering=False)
             add(tot, st)
-            if v and not viol:
-                viol = (v, c, o)
-    if viol:
-        (key, why, k), c, o = viol
+            record(v, c, o)
+    for key in sorted(viols, key=lambda x: (x == PREMATURE, x)):
+        (key, why, k), c, o = viols[key]
         _, evs = srvmon.history_events(c)
         rep.add_violation(key, why + ' (event %d of the history: %s)' % (k, evs[k][:120]),
                           dict(kind='input', driver='srv', case=c, event=k, observed=o.split(' ; ')[k][:1500], expected=why))
@@ -281,7 +309,9 @@ def replay(rp):
         print('replay names a broken obligation, not an input:', rp.get('broken'))
         return 1
     impl, mod = srvmon.run_both(ctx, [case], 'replay', full=True)
-    v, st = monitor(case, impl[0], numbering=True) if impl else (('crash', 'no output', 0), {})
+    v, st, notes = monitor(case, impl[0], numbering=True) if impl else (('crash', 'no output', 0), {}, [])
+    if not v and notes and rp.get('key') == PREMATURE:
+        v = notes[0]
     _, evs = srvmon.history_events(case)
     k = rp.get('event', v[2] if v else 0)
     print('history: %d events; event %d: %s' % (len(evs), k, evs[k][:300]))
